@@ -26,7 +26,23 @@
 //     reached that state without any fault: an interrupted write leaves no trace that changes
 //     behaviour. In particular the retry of the interrupted write behaves like the first try.
 //   - error mode: the SAME handle is also asked all reads and then the retry, with the same
-//     reference; failures that only the same handle shows get their own keys.
+//     reference; failures that only the same handle shows get their own keys
+//     (".../same-handle/..."). Cached v1 handles (thorough) are as warm as the history makes
+//     them when the fault strikes; for them a read that answers from before the write is not
+//     counted (what a cache may show after writes is C06's subject), a read that FAILS, or
+//     stops offering a surviving key the handle offered before, is.
+//   - a key pair counts as the key under change: private and public part must both be old or
+//     both be new. A mixed pair is reported as key-pair-half-written (keyed by operation class
+//     and the mix, not by the many fault sites that lead to it); when the store then hands
+//     out a public key whose private key it no longer holds (data encrypted from now on can
+//     never be decrypted) it is public-key-offered-without-private-key.
+//
+// Finding keys: C08/<format>/<operation class>/<fault site>/<failure class> for consequences
+// of what a fault leaves behind, where the fault site is canonical - "<crash|error>-after:
+// <last storage-changing seam call that completed>" (crash before call k, after call k-1 and
+// around reads in between leave the same storage and share it), "torn:<call>", or
+// "<crash|error>-before-first-write"; C08/<format>/<operation class>/<state class>[/<failure
+// class>] for surviving states that are themselves wrong.
 //
 // Deliberately permissive (the statement speaks about loss and corruption, not atomicity of
 // every intermediate step):
@@ -48,6 +64,10 @@
 // DestroyKey on a long-lived ring handle, histories of depth <= 2) with the same faults: after
 // an error the same ring handle must show what is stored (no phantom key) and its next write
 // must persist exactly itself (transaction log rolled back).
+//
+// Not covered: two faults in one operation or a second fault while an earlier leftover is
+// being cleaned up (the follow-ups run fault-free); key stores in Redis; concurrent writers
+// (C17); the data files acra-rotate re-encrypts before it saves the new key.
 package main
 
 import (
@@ -525,13 +545,13 @@ func (w *world) callName(c kslab.Call) string {
 		case 1:
 			return c.Op + "(" + shape(c.Paths[0]) + ")"
 		}
-		return c.Op + "(" + shape(c.Paths[0]) + "→" + shape(c.Paths[1]) + ")"
+		return c.Op + "(" + shape(c.Paths[0]) + "->" + shape(c.Paths[1]) + ")"
 	}
 	shapes := make([]string, len(c.Paths))
 	for i, p := range c.Paths {
 		shapes[i] = w.v1Shape(p)
 	}
-	return c.Op + "(" + strings.Join(shapes, "→") + ")"
+	return c.Op + "(" + strings.Join(shapes, "->") + ")"
 }
 
 // v1Shape classifies a v1 path relative to the key files of the two slots.
@@ -560,14 +580,14 @@ func (w *world) v1Shape(p string) string {
 		case rel == n.file:
 			return n.label
 		case rel == n.file+".old":
-			return n.label + ".old"
+			return n.label + "-history-dir"
 		case strings.HasPrefix(rel, n.file+".old/"):
-			return n.label + ".old/<time>"
+			return n.label + "-history-file"
 		}
 	}
 	for _, n := range names {
 		if strings.HasPrefix(rel, n.file) && digits(rel[len(n.file):]) {
-			return n.label + ".tmp"
+			return n.label + "-tmp"
 		}
 	}
 	return "?"
@@ -1030,6 +1050,21 @@ func (c *jobCtx) rollback(cp *kslab.Checkpoint) {
 	}
 }
 
+// toPreState puts the lab into the pre-state of the job. Uncached handles keep no memory, so the
+// storage image is restored and a fresh handle opened. The content of a key cache is part of the
+// pre-state of a cached handle: the history is replayed on a new store so that the handle is as
+// warm as the history makes it when the fault strikes.
+func (c *jobCtx) toPreState() {
+	if !c.j.w.cfg.Cached() {
+		c.rollback(c.cpOld)
+		return
+	}
+	c.lab.Close()
+	c.lab = c.j.w.newLab()
+	c.lab.Replay(c.j.pre.hist)
+	c.seam = c.lab.S.Seam()
+}
+
 func (c *jobCtx) references(cp *kslab.Checkpoint, fus []kslab.Op) map[string]outcome {
 	ref := map[string]outcome{}
 	for _, f := range fus {
@@ -1042,12 +1077,12 @@ func (c *jobCtx) references(cp *kslab.Checkpoint, fus []kslab.Op) map[string]out
 func (rn *runner) runJob(j job) {
 	w := j.w
 	lab := w.newLab()
-	defer lab.Close()
 	lab.Replay(j.pre.hist)
 	if got := lab.Canon(); j.pre.canon != "" && got != j.pre.canon {
 		ev.Fatalf("%s: replaying %s did not reproduce its state:\n got  %s\n want %s", w.name(), kslab.HistoryString(j.pre.hist), got, j.pre.canon)
 	}
 	c := &jobCtx{runner: rn, j: j, lab: lab, seam: lab.S.Seam()}
+	defer func() { c.lab.Close() }()
 	if c.seam == nil {
 		ev.Fatalf("%s has no instrumented seam", w.name())
 	}
@@ -1055,7 +1090,9 @@ func (rn *runner) runJob(j job) {
 	if c.cpOld, err = lab.Checkpoint(); err != nil {
 		ev.Fatalf("%s: %v", w.name(), err)
 	}
-	c.rollback(c.cpOld) // fresh handle, as every faulted run will have
+	if !w.cfg.Cached() {
+		c.rollback(c.cpOld) // fresh handle, as every faulted run will have
+	} // cached handle: it is warm from the history, as in every faulted run (see toPreState)
 	c.pre = lab.State()
 	c.opClass = w.opClass(j.op, c.pre.Slot(w.test))
 	rn.note(&rn.opClasses, w.fmtClass()+"/"+c.opClass)
@@ -1151,7 +1188,7 @@ type faultResult struct {
 // runFault executes the final operation with one fault and evaluates the oracle.
 func (c *jobCtx) runFault(fs faultSpec) {
 	w, op := c.j.w, c.j.op
-	c.rollback(c.cpOld)
+	c.toPreState()
 	c.seam.ResetLog()
 	c.seam.Record(true)
 	target := c.calls[fs.k]
@@ -1163,6 +1200,7 @@ func (c *jobCtx) runFault(fs faultSpec) {
 	c.seam.Record(false)
 	flog := c.seam.Log()
 	c.r.Transitions(1)
+	c.r.Traces(1)
 	c.faults.Add(1)
 	if len(flog) <= fs.k || flog[fs.k].Op != target.Op {
 		ev.Fatalf("%s: %s after %s: the faulted run did not repeat the seam calls of the unfaulted run (call %d: %v, expected %s)", w.name(), op, kslab.HistoryString(c.j.pre.hist), fs.k, flog, target.Op)
@@ -1177,9 +1215,9 @@ func (c *jobCtx) runFault(fs faultSpec) {
 	pl.Call, pl.CallName, pl.Mode, pl.Lost = fs.k, name, mode, fs.lost
 	trace := c.only != nil
 	if trace {
-		fmt.Printf("  fault: %s at seam call #%d %s; operation returned %v (crashed: %v)\n", mode, fs.k, name, res.Err, crash != nil)
+		fmt.Printf("  fault: %s at seam call #%d %s; operation returned %v (crashed: %v)\n", mode, fs.k+1, name, res.Err, crash != nil)
 		for i, cl := range flog {
-			fmt.Printf("      call %2d %-44s err=%q %s\n", i, w.callName(cl), cl.Err, cl.Fault)
+			fmt.Printf("      call #%-2d %-44s err=%q %s\n", i+1, w.callName(cl), cl.Err, cl.Fault)
 		}
 	}
 
@@ -1379,8 +1417,34 @@ func (c *jobCtx) sameHandlePass(cl classification, post kslab.State, trace bool)
 			if got.answer != want.answer || got.post != want.post {
 				fcs = []string{w.failureClass(f, want, got)}
 			}
+			if w.cfg.Cached() && readOnly(f) && got.post == want.post && !(got.failed && !want.failed) && got.panic == "" {
+				// a key cache may answer from before the write (what a cached handle may show
+				// after writes is C06's subject): only failing reads count here
+				fcs = nil
+			}
 		} else {
 			fcs = w.invariants(f, before, got, c.lab.State())
+			if w.cfg.Cached() && f.Code == kslab.OpReadAll {
+				// same allowance: a cached handle need not offer keys it has not offered so far, but it
+				// must keep offering every surviving key it offered before the failed write
+				var keep []string
+				for _, fc := range fcs {
+					if fc == "surviving-keys-not-offered-for-decryption" {
+						old := false
+						// (what it offered before the fault: kslab tracks it per handle, as C06 does)
+						for _, o := range c.pre.OfferedBy(f.Slot()) {
+							if o > 0 && contains(before.Slot(f.Slot()).Surv, o) && !contains(got.all, o) {
+								old = true
+							}
+						}
+						if !old {
+							continue
+						}
+					}
+					keep = append(keep, fc)
+				}
+				fcs = keep
+			}
 		}
 		if trace {
 			fmt.Printf("      same handle %-26s -> %s | %s %v\n", f, got.answer, got.post, fcs)
@@ -1522,7 +1586,7 @@ func main() {
 		{Format: "v2", Storage: "dir"},
 	}
 	if r.Thorough() {
-		depth = 3
+		depth = 4
 		cfgs = append(cfgs, kslab.Config{Format: "v1", Storage: "mem", Cache: keystore.InfiniteCacheSize}, kslab.Config{Format: "v1", Storage: "mem", Cache: 1})
 	}
 	if *depthFlag >= 0 {
@@ -1591,6 +1655,11 @@ func main() {
 	}
 	r.Set("bounds", map[string]interface{}{"history_depth": depth, "configs": len(cfgs), "kinds": len(kslab.AllKinds), "slots_per_world": "key under test + one bystander key of another kind", "weak_v1_durability_model": rn.weak})
 	r.Set("per_world", perWorld)
+	totalStates := rn.jobs.Load() + int64(ringStats["history_operation_pairs"])
+	totalTransitions := rn.faults.Load() + rn.followUps.Load() + int64(ringStats["faulted_executions"]+ringStats["follow_up_operations"])
+	r.Set("states", totalStates)
+	r.Set("transitions", totalTransitions)
+	r.Set("traces_validated_against_impl", totalTransitions)
 	r.Set("counts", map[string]int64{"state_operation_pairs": rn.jobs.Load(), "seam_calls_of_unfaulted_operations": rn.seamCalls.Load(), "max_seam_calls_per_operation": rn.maxCalls.Load(), "faulted_executions": rn.faults.Load(), "follow_up_operations": rn.followUps.Load()})
 	r.Set("seam_calls", names(rn.callNames))
 	r.Set("fault_modes", names(rn.modesSeen))
